@@ -1,6 +1,7 @@
 SPEC = dict(
     props_file="C13",
-    legs=[dict(family="countmin", focus="foreign", oracles=["prop_foreign"], profiles=["debug", "release"], n_quick=120, n_thorough=1200)],
+    legs=[dict(family="countmin", focus="foreign", oracles=["prop_foreign", "prop_ok"], profiles=["debug", "release"], n_quick=120, n_thorough=1200,
+               panic_is_violation=True)],
     level_text="Theorems (Props/C13.v and its parts): per family, for every admissible abstract state a and every variant v of the "
                "cross-language format (Spec/*Layout.v: spec_encode, written from the format description, constants as literals), the "
                "modelled reader accepts spec_encode v a and yields a sketch whose abstraction is exactly a (and, where the layout is "
